@@ -182,7 +182,8 @@ fn c12_wake(case: &Case) {
                         SigOp::Ack { file: if simkernel::choose(6) == 5 { 3 } else { 0 }, off }
                     }
                     4 => SigOp::Cancel(format!("r{s}.{j}")),
-                    5 => SigOp::Advance(1 + simkernel::choose(2)),
+                    // (a later file, or the active file started over: both reset the offsets)
+                    5 => SigOp::Advance(simkernel::choose(3)),
                     6 | 7 => {
                         let off = if simkernel::choose(5) == 4 {
                             sent + 3
@@ -232,12 +233,28 @@ fn c12_wake(case: &Case) {
     let order = Arc::new(Mutex::new(()));
 
     let t_start = Instant::now();
+    // In reconnect mode the producer may have been quiet for a while (since its last chunk and
+    // ack) before it notices the dead link and parks: the window it asks for starts then.
+    // (kept off the monitor's half-millisecond grid, where it expects nothing else to be runnable)
+    let quiet_ns = if reconnect_mode {
+        let q = pick(&[0u64, 0, MS / 4, MS + MS / 4, 2 * MS + MS / 4]).min(deadline_ns / 2);
+        if q % MS == MS / 2 { q - MS / 4 } else { q }
+    } else {
+        0
+    };
+    let started = Arc::new(std::sync::atomic::AtomicBool::new(false));
+    let (w_started, m_started) = (started.clone(), started.clone());
     // ---- waiter
     let w_ctl = ctl.clone();
     let w_sh = shared.clone();
     let waiter = thread::spawn(move || {
+        if quiet_ns > 0 {
+            simkernel::count("probe.quiet_period_before_the_reconnect_wait");
+            thread::sleep(Duration::from_nanos(quiet_ns));
+        }
+        w_started.store(true, std::sync::atomic::Ordering::SeqCst);
         let r = if reconnect_mode {
-            let out = w_ctl.wait_for_reconnect(Duration::from_nanos(deadline_ns));
+            let out = w_ctl.wait_for_reconnect(Duration::from_nanos(deadline_ns - quiet_ns));
             WaitResult::Reconnect(match out {
                 ReconnectOutcome::ResumeReady(p) => format!("resume:{}", p.resume_at_offset),
                 ReconnectOutcome::Cancelled(r) => format!("cancelled:{r}"),
@@ -260,6 +277,7 @@ fn c12_wake(case: &Case) {
     for plan in plans.clone() {
         let ctl = ctl.clone();
         let sh = shared.clone();
+        let sig_case = case.clone();
         let order = order.clone();
         sigs.push(thread::spawn(move || {
             let mut now_t = 0u64;
@@ -283,6 +301,12 @@ fn c12_wake(case: &Case) {
                         let _g = order.lock().unwrap();
                         ctl.advance_to_file(f);
                         sh.lock().unwrap().pending = false;
+                        // a file advance - to a later file or to the active one started over -
+                        // resets the offsets (sends are serialised with it through `order`)
+                        let (s, a) = ctl.offsets();
+                        if (s, a) != (0, 0) {
+                            sig_case.fail("advance-not-applied", format!("advance_to_file({f}) returned but the offsets are still ({s},{a}): the waiter cannot have been woken by it"));
+                        }
                     }
                     SigOp::Resume { file, off } => {
                         let _g = order.lock().unwrap();
@@ -292,7 +316,10 @@ fn c12_wake(case: &Case) {
                             sh.lock().unwrap().pending = true;
                         }
                     }
-                    SigOp::Send(o) => ctl.record_sent(o),
+                    SigOp::Send(o) => {
+                        let _g = order.lock().unwrap();
+                        ctl.record_sent(o)
+                    }
                 }
                 let now = simkernel::now_ns();
                 simkernel::event(|| format!("op {desc}"));
@@ -333,7 +360,7 @@ fn c12_wake(case: &Case) {
             // (when a signaller's critical section is stretched across the deadline the monitor's
             // own reads queue behind that lock, so what it sees is no longer a quiescent state:
             // such runs are judged by their final outcome only)
-            if returned.is_none() && !slow_planned {
+            if returned.is_none() && !slow_planned && m_started.load(std::sync::atomic::Ordering::SeqCst) {
                 if pred {
                     m_case.fail(
                         "lost-wakeup",
